@@ -753,7 +753,8 @@ var charsets = []string{"UTF-8", "ISO-8859-1", "utf-8", "US-ASCII"}
 var fileNames = []string{"file.txt", "image.png", "doc.pdf", "no-extension", "with space.txt", "ümlaut.txt", "a;b=c.txt", "q\"uote.bin", "path/evil.txt",
 	"a-very-long-file-name-that-goes-on-and-on-and-on-for-more-than-fifty-characters.dat", "tab\tname.txt", "ctrl\r\nname.txt", "日本語.txt", ".hidden", "x.UNKNOWNEXT",
 	"Квартальный отчёт за 2024 год.pdf", "Übersichtsgrafik der Jahresabschlussprüfung für Österreich.png", "非常に長い日本語のファイル名の例ですよ.txt",
-	"a long, mostly ASCII file name with one ümlaut that needs more than one encoded-word.txt"}
+	"a long, mostly ASCII file name with one ümlaut that needs more than one encoded-word.txt",
+	"caf\xe9 men\xfc.txt", "data\xff\xfe.bin", "half\xc3.txt"}
 var genKeys = []string{"Subject", "Organization", "X-Custom", "In-Reply-To", "References", "Importance", "X-Priority", "List-Unsubscribe", "Precedence"}
 var goodAddrs = []string{"alice@example.com", "Bob <bob@example.org>", "\"Last, First\" <lf@example.net>", "Jürgen Müller <jm@example.de>", "\"quoted local\"@example.com",
 	"<carol@example.com>", "dave+tag@sub.example.co.uk", "\"a b>c\"@example.com", "Eve (comment) <eve@example.com>", "=?UTF-8?q?Enc?= <enc@example.com>",
